@@ -28,6 +28,13 @@ pub fn build(seed: u64, t22: bool, rec: &mut Recorder) -> World {
 
 /// `force_pending`: P2 is an adaptive-fee pool whose trading is enabled only later
 pub fn build_with(seed: u64, t22: bool, force_pending: bool, rec: &mut Recorder) -> World {
+    build_full(seed, t22, force_pending, false, rec)
+}
+
+/// `fee_on_a`: mint A (Token-2022) charges a transfer fee; routes with A as the intermediate token are then left out
+/// (a two-hop moves the intermediate token vault to vault, two single swaps move it through the trader: with a fee on
+/// it the two are not comparable), routes with A as input or output keep their meaning.
+pub fn build_full(seed: u64, t22: bool, force_pending: bool, fee_on_a: bool, rec: &mut Recorder) -> World {
     TRADE_PENDING.with(|c| c.set(false));
     let mut w = World::new(seed);
     w.init_config("C1", 300);
@@ -36,7 +43,8 @@ pub fn build_with(seed: u64, t22: bool, force_pending: bool, rec: &mut Recorder)
     }
     let keys = w.sorted_keys(3);
     for (i, n) in ["A", "B", "R"].iter().enumerate() {
-        w.add_mint_keyed(n, keys[i], if t22 { TokProg::T22 } else { TokProg::Spl }, None);
+        let fee = if fee_on_a && t22 && *n == "A" { Some(pick(&mut w, &[(100u16, 1_000_000_000u64), (250, u64::MAX), (30, 5_000)])) } else { None };
+        w.add_mint_keyed(n, keys[i], if t22 { TokProg::T22 } else { TokProg::Spl }, fee);
     }
     for u in ["U1", "U2", "collectAuthC1"] {
         for m in ["A", "B", "R"] {
@@ -123,7 +131,8 @@ fn random_limit(w: &mut World, pool: &str, a_to_b: bool) -> u128 {
 pub fn run(seed: u64, worlds: usize, attempts: usize, rec: &mut Recorder) {
     for wi in 0..worlds {
         let t22 = wi % 2 == 1;
-        let mut w = build_with(seed.wrapping_mul(7919).wrapping_add(wi as u64), t22, wi % 4 == 0, rec);
+        let fee_on_a = wi % 4 == 1;
+        let mut w = build_full(seed.wrapping_mul(7919).wrapping_add(wi as u64), t22, wi % 4 == 0, fee_on_a, rec);
         let legs: Vec<(&str, &str, bool, bool)> = vec![
             ("P1", "P2", true, true),   // A->B->R
             ("P2", "P1", false, false), // R->B->A
@@ -155,7 +164,7 @@ pub fn run(seed: u64, worlds: usize, attempts: usize, rec: &mut Recorder) {
                 let dt = pick(&mut w, &[1i64, 11, 130, 4000]);
                 rec.tick_clock(&mut w, dt);
             }
-            let (p1, p2, d1, d2) = if hold { legs[[0usize, 1, 4, 5][att % 4]] } else if w.rng.gen_bool(0.9) { legs[w.rng.gen_range(0..6)] } else { legs[w.rng.gen_range(6..legs.len())] };
+            let (p1, p2, d1, d2) = if hold || fee_on_a { legs[[0usize, 1, 4, 5][if hold { att % 4 } else { w.rng.gen_range(0..4) }]] } else if w.rng.gen_bool(0.9) { legs[w.rng.gen_range(0..6)] } else { legs[w.rng.gen_range(6..legs.len())] };
             let exact_in = w.rng.gen_bool(0.6);
             let amount = log_uniform(&mut w, 3, 42) as u64;
             let (l1, l2) = (random_limit(&mut w, p1, d1), random_limit(&mut w, p2, d2));
